@@ -145,7 +145,14 @@ def install():
     def get_device_mesh(device_type, mesh, mesh_dim_names=None):
         cache = _tls.__dict__.setdefault("mesh_cache", {})
         key = (device_type, mesh, mesh_dim_names)
-        if key not in cache:
+        miss = key not in cache
+        w = _current_world
+        if w is not None:
+            try:
+                w.log(dist.get_rank(), "mesh", mesh=[list(x) if isinstance(x, (tuple, list)) else x for x in mesh], miss=miss)
+            except Exception:
+                pass
+        if miss:
             cache[key] = raw(device_type=device_type, mesh=mesh, mesh_dim_names=mesh_dim_names)
         return cache[key]
     import distributed_shampoo.utils.shampoo_ddp_distributor as m1
